@@ -429,9 +429,9 @@ def mech_of(what, name, kind, v, text, got, exc=None, pname=None):
                 return 'bounded_int_max_str_len_counts_sign_and_zeros'
         if pname == 'Soap11' and name == 'Date.fmt' and what == 'roundtrip_crash' and type(exc).__name__ == 'ValidationError':
             return 'soap11_date_format_print_not_iso'
-        if kind in ('time', 'datetime') and what == 'parse_crash' and '24:00:00' in (text or '') \
-                and type(exc).__name__ == 'ValueError':
-            return 'xsd_24_00_00_crash'
+        if kind in ('time', 'datetime') and what in ('parse_crash', 'parse_rejected') and '24:00:00' in (text or '') \
+                and type(exc).__name__ in ('ValueError', 'ValidationError'):
+            return 'xsd_24_00_00_not_read'
         if name == 'ByteArray.hex' and what in ('parse_crash', 'roundtrip_crash') and type(exc).__name__ == 'TypeError':
             return 'hex_from_text_typeerror'
         if kind == 'datetime' and what in ('parse_wrong', 'roundtrip_changed') and isinstance(got, datetime.datetime) \
